@@ -14,7 +14,8 @@ Inductive gv :=
 | V (v : pyval)                                                (* int / float / bytes / str / list / None / other *)
 | Def (d : list adef)                                          (* a payload definition dict *)
 | Tup (l : list gv)                                            (* a tuple *)
-| Call (f : string) (pos : list gv) (kw : list (string * gv)). (* the result of a call this layer does not look into *)
+| Call (f : string) (pos : list gv) (kw : list (string * gv))  (* the result of a call this layer does not look into *)
+| Fn (name : string).                                          (* a function object: a variant selector, by name *)
 
 Definition bytes_of_string (s : string) : bytes := map N_of_ascii (list_ascii_of_string s).
 Definition string_of_bytes (b : bytes) : string := string_of_list_ascii (map ascii_of_N b).
@@ -89,6 +90,7 @@ Definition g_truth (a : gv) : bool :=
   | Def d => match d with [] => false | _ => true end
   | Tup l => match l with [] => false | _ => true end
   | Call _ _ _ => true
+  | Fn _ => true
   end.
 
 (* x in (a, b, ...) *)
@@ -106,16 +108,18 @@ Definition g_len (a : gv) : result gv :=
   end.
 
 (* a[lo:hi]; a missing bound is None *)
+Definition slice_of (b : bytes) (lo hi : gv) : result bytes :=
+  match lo, hi with
+  | V (PInt x), V (PInt y) => Ok (pyslice b x y)
+  | V PNone, V (PInt y) => Ok (pyslice b 0 y)
+  | V (PInt x), V PNone => Ok (pyslice_from b x)
+  | V PNone, V PNone => Ok b
+  | _, _ => Raise EType
+  end.
 Definition g_slice (a : gv) (lo hi : gv) : result gv :=
   match a with
-  | V (PBytes b) =>
-      match lo, hi with
-      | V (PInt x), V (PInt y) => Ok (gbytes (pyslice b x y))
-      | V PNone, V (PInt y) => Ok (gbytes (pyslice b 0 y))
-      | V (PInt x), V PNone => Ok (gbytes (pyslice_from b x))
-      | V PNone, V PNone => Ok (gbytes b)
-      | _, _ => Raise EType
-      end
+  | V (PBytes b) => do r <- slice_of b lo hi; Ok (gbytes r)
+  | V (PStr b) => if forallb (fun c => (c <? 128)%N) b then do r <- slice_of b lo hi; Ok (V (PStr r)) else Raise EOther
   | _ => Raise EType
   end.
 
@@ -127,6 +131,11 @@ Definition g_index (a i : gv) : result gv :=
       let j := if x <? 0 then x + n else x in
       if (j <? 0) || (n <=? j) then Raise EIndex
       else match nth_error b (Z.to_nat j) with Some c => Ok (gint (Z.of_N c)) | None => Raise EIndex end
+  | Tup l, V (PInt x) =>
+      let n := Z.of_nat (length l) in
+      let j := if x <? 0 then x + n else x in
+      if (j <? 0) || (n <=? j) then Raise EIndex
+      else match nth_error l (Z.to_nat j) with Some c => Ok c | None => Raise EIndex end
   | _, _ => Raise EType
   end.
 
@@ -197,6 +206,19 @@ Definition g_tab (t : list (string * list adef)) (a : gv) : result gv :=
   | V (PStr u) => match assoc_s (string_of_bytes u) t with Some d => Ok (Def d) | None => Raise EKey end
   | V (PList _) => Raise EType
   | _ => Raise EKey
+  end.
+
+(* try: r  except <e>: h   (r is everything the try body does, h the handler) *)
+Definition g_catch (r : result gv) (e : exn) (h : result gv) : result gv :=
+  match r with Raise e' => if exn_eqb e e' then h else r | Ok _ => r end.
+
+(* VARIANTS[mode].get(msg, dflt); `modes` are the keys VARIANTS has *)
+Definition g_variants_get (modes : list N) (mode msg dflt : gv) : result gv :=
+  match mode, msg with
+  | V (PInt m), V (PBytes b) =>
+      if (m <? 0) || negb (existsb (N.eqb (Z.to_N m)) modes) then Raise EKey
+      else Ok (match variant_lookup (Z.to_N m) b variants with Some f => Fn f | None => dflt end)
+  | _, _ => Raise EKey
   end.
 
 (* how _get_dict consumes a selector's result: `except KeyError` -> UBXMessageError; the dict is then iterated *)
